@@ -48,6 +48,13 @@ func (w *World) newInput(label string, wd uint8) *Term {
 	return w.tt.Var(name, wd)
 }
 
+// newInternalInput is newInput for values that the native run does not take from the replay vector.
+func (w *World) newInternalInput(label string, wd uint8) *Term {
+	t := w.newInput(label, wd)
+	w.run.inputs[len(w.run.inputs)-1].Internal = true
+	return t
+}
+
 func argStr(v value) string {
 	s, ok := v.(string)
 	if !ok {
